@@ -261,3 +261,64 @@ Theorem conn_continues_only_after_final : forall reqs i r b,
   S i < length (conn_exchanges reuse_real [] reqs) ->
   r_close r = false /\ (199 < r_code r)%Z /\ b_end b = BOk /\ b_rest b = [].
 Proof. intros reqs. apply conn_continues_gen. Qed.
+
+(* ====================================================================== *)
+(* Expect: 100-continue                                                   *)
+(* ====================================================================== *)
+
+(* what the client makes of the server's bytes does not depend on whether the request was sent
+   with Expect: 100-continue *)
+Theorem expect_does_not_change_the_response : forall fuel meth n armed s,
+  fst (read_final_expect true fuel meth n armed s) = read_final fuel meth n s.
+Proof.
+  induction fuel as [|f IH]; intros meth n armed s; [reflexivity|].
+  cbn [read_final_expect read_final].
+  destruct (read_response_head meth conn_bufsize s) as [e|[r rest]]; [reflexivity|].
+  destruct (is_1xx_nonterminal (r_code r)); [|reflexivity].
+  destruct (max_1xx_responses <? S n); [reflexivity|].
+  specialize (IH meth (S n) (armed && negb (armed && (r_code r =? 100)%Z)) rest).
+  destruct (read_final_expect true f meth (S n) _ rest) as [fh more]. exact IH.
+Qed.
+
+(* the channel to the body writer has capacity one and is signalled AT MOST ONCE per exchange -
+   however many 100 heads the server sends - so the read loop can never block on it; and not
+   at all when the request did not expect a 100 *)
+Theorem continue_signalled_at_most_once : forall fuel meth n armed s,
+  length (snd (read_final_expect true fuel meth n armed s)) <= (if armed then 1 else 0).
+Proof.
+  induction fuel as [|f IH]; intros meth n armed s; [destruct armed; cbn; lia|].
+  cbn [read_final_expect].
+  destruct (read_response_head meth conn_bufsize s) as [e|[r rest]]; [destruct armed; cbn; lia|].
+  destruct armed; cbn [andb negb].
+  - destruct (r_code r =? 100)%Z; cbn [negb].
+    + destruct (is_1xx_nonterminal (r_code r)).
+      * destruct (max_1xx_responses <? S n); [cbn; lia|].
+        specialize (IH meth (S n) false rest).
+        destruct (read_final_expect true f meth (S n) false rest) as [fh more].
+        cbn [snd length app] in *. lia.
+      * cbn. lia.
+    + destruct (is_1xx_nonterminal (r_code r)).
+      * destruct (max_1xx_responses <? S n); [cbn; lia|].
+        specialize (IH meth (S n) true rest).
+        destruct (read_final_expect true f meth (S n) true rest) as [fh more].
+        cbn [snd length app] in *. lia.
+      * cbn. lia.
+  - destruct (is_1xx_nonterminal (r_code r)).
+    + destruct (max_1xx_responses <? S n); [cbn; lia|].
+      specialize (IH meth (S n) false rest).
+      destruct (read_final_expect true f meth (S n) false rest) as [fh more].
+      cbn [snd length app] in *. lia.
+    + cbn. lia.
+Qed.
+
+(* without `continueCh = nil` (seeded e-m2) two 100 heads and a final 200 produce THREE sends
+   on a channel of capacity one: the third blocks the read loop for good and a complete
+   response the reference accepts is never delivered *)
+Definition expect_demo : bytes :=
+  bs "HTTP/1.1 100 Continue" ++ [CR; LF; CR; LF] ++ bs "HTTP/1.1 100 Continue" ++ [CR; LF; CR; LF] ++
+  bs "HTTP/1.1 200 OK" ++ [CR; LF] ++ bs "Content-Length: 2" ++ [CR; LF; CR; LF] ++ bs "hi".
+
+Theorem expect_without_disarm_refuted :
+  snd (read_final_expect false 7 (bs "POST") 0 true expect_demo) = [SigSendBody; SigSendBody; SigSendBody] /\
+  snd (read_final_expect true 7 (bs "POST") 0 true expect_demo) = [SigSendBody].
+Proof. vm_compute. split; reflexivity. Qed.
